@@ -80,6 +80,168 @@ func (s *Schema) randomPaths(r *hx.Rand, t RType, d *Doc) []string {
 	return out
 }
 
+// every path of the document that ends at an object key (array items are the segment "*"), as segments
+func keyPaths(d *Doc) [][]string {
+	var out [][]string
+	var walk func(d *Doc, path []string)
+	walk = func(d *Doc, path []string) {
+		if len(path) > 0 && len(path) <= 5 && path[len(path)-1] != "*" {
+			out = append(out, path)
+		}
+		switch d.Kind {
+		case "obj":
+			for i, k := range d.Keys {
+				if !strings.ContainsAny(k, "/") && k != "" && k != "*" {
+					walk(d.Items[i], append(append([]string{}, path...), k))
+				}
+			}
+		case "arr":
+			for _, x := range d.Items {
+				walk(x, append(append([]string{}, path...), "*"))
+			}
+		}
+	}
+	walk(d, nil)
+	return out
+}
+
+func segsEq(a, b []string) bool {
+	if len(a) != len(b) {
+		return false
+	}
+	for i := range a {
+		if a[i] != b[i] {
+			return false
+		}
+	}
+	return true
+}
+
+// two directives that share a prefix and differ at ONE level by the wildcard versus a key that occurs in the value, with
+// different tails below that level:   prefix/*/tailQ   and   prefix/k/tailP   (P = prefix/k/tailP and Q = prefix/k'/tailQ are
+// paths of the value; k' may be k itself or a sibling).  Below k BOTH directives apply: a matcher that follows only the named
+// branch (or only the wildcard) loses one of them.  Returned in random order; nil when the value has no such pair of paths.
+func siblingDirectives(r *hx.Rand, paths [][]string) []string {
+	if len(paths) == 0 {
+		return nil
+	}
+	for try := 0; try < 30; try++ {
+		P := paths[r.Intn(len(paths))]
+		if len(P) < 2 {
+			continue
+		}
+		lv := r.Intn(len(P) - 1)
+		if P[lv] == "*" {
+			continue
+		}
+		var cands [][]string
+		for _, Q := range paths {
+			if len(Q) > lv+1 && Q[lv] != "*" && segsEq(Q[:lv], P[:lv]) && !segsEq(Q[lv+1:], P[lv+1:]) {
+				cands = append(cands, Q)
+			}
+		}
+		if len(cands) == 0 {
+			continue
+		}
+		Q := cands[r.Intn(len(cands))]
+		wild := strings.Join(append(append(append([]string{}, P[:lv]...), "*"), Q[lv+1:]...), "/")
+		named := strings.Join(P, "/")
+		if r.Bool() {
+			return []string{wild, named}
+		}
+		return []string{named, wild}
+	}
+	return nil
+}
+
+// the reference document without the values at paths the directives exclude (independent of the library's writers)
+func pruneDoc(d *Doc, directives []string, path []string) *Doc {
+	c := &Doc{Kind: d.Kind, Z: d.Z, Bits: d.Bits, B: d.B, S: d.S}
+	switch d.Kind {
+	case "obj":
+		for i, k := range d.Keys {
+			p := append(append([]string{}, path...), k)
+			if specExcludes(directives, p) {
+				continue
+			}
+			c.Keys = append(c.Keys, k)
+			c.Items = append(c.Items, pruneDoc(d.Items[i], directives, p))
+		}
+	case "arr":
+		for _, x := range d.Items {
+			c.Items = append(c.Items, pruneDoc(x, directives, append(append([]string{}, path...), "*")))
+		}
+	}
+	return c
+}
+
+// does a directive, read from the ROOT of a default literal of the schema, match a key inside that literal?  The generated
+// populateLocalDefaultValues re-parses default literals with a reader WITHOUT excluded fields; the model (Codec/Decode.v
+// lit_value) re-parses them inside the section that fixes the spec, so there a spec such as `a` next to the default {"a":7}
+// suppresses the default.  Known inaccuracy of the model in this corner: the documents that omit fields (so that defaults are
+// filled) are then judged by the Go oracle only, not added to the model's case.
+func specHitsDefaultLiteral(tname string, directives []string) bool {
+	hit := false
+	reach := map[string]bool{}
+	var visitT func(t RType)
+	var visit func(name string)
+	visitT = func(t RType) {
+		switch {
+		case t.Array != nil:
+			visitT(*t.Array)
+		case t.Map != nil:
+			visitT(*t.Map)
+		case t.Reference != nil:
+			visit(t.Reference.Name)
+		}
+	}
+	visit = func(name string) {
+		n := schema.Types[name]
+		if n == nil || reach[name] {
+			return
+		}
+		reach[name] = true
+		for _, inc := range n.Includes {
+			visit(inc)
+		}
+		for _, f := range n.Fields {
+			visitT(f.Type)
+		}
+		for _, m := range n.Members {
+			visitT(m.Type)
+		}
+	}
+	visit(tname)
+	var walk func(x interface{}, path []string)
+	walk = func(x interface{}, path []string) {
+		switch y := x.(type) {
+		case map[string]interface{}:
+			for k, z := range y {
+				p := append(append([]string{}, path...), k)
+				if specExcludes(directives, p) {
+					hit = true
+				}
+				walk(z, p)
+			}
+		case []interface{}:
+			for _, z := range y {
+				walk(z, append(append([]string{}, path...), "*"))
+			}
+		}
+	}
+	for name, n := range schema.Types {
+		for _, f := range n.Fields {
+			if f.DefaultValue != nil && reach[name] {
+				var x interface{}
+				if json.Unmarshal([]byte(*f.DefaultValue), &x) == nil {
+					walk(x, nil)
+				}
+			}
+		}
+	}
+	return hit
+}
+
 // walk the reference document and the generic JSON the library produced: excluded paths absent, everything else present
 func checkPruned(ref *Doc, got interface{}, directives []string, path []string) string {
 	switch ref.Kind {
@@ -151,12 +313,15 @@ func carriesExcluded(d *Doc, directives []string, ignore int, path []string) boo
 }
 
 func runC07(cfg *hx.Config) {
-	rep := hx.NewReport("exclusion specs (1-3 directives of depth <= 4 drawn from the paths that occur in the value: field names, map keys, wildcards; no directive a prefix of another) " +
-		"x family values: writers constructed WithExcludedFields (compact JSON, pretty JSON, ROR2 header) and readers constructed WithExcludedFields (JSON, ROR2; leading scope 0-2). " +
+	rep := hx.NewReport("exclusion specs (1-3 directives of depth <= 4 drawn from the paths that occur in the value: field names, map keys, wildcards; no directive a prefix of another; " +
+		"every second spec holds a wildcard directive and a named directive that share their prefix and differ at one level by `*` versus a key of the value, with different tails, in both orders) " +
+		"x family values: writers constructed WithExcludedFields (compact JSON, pretty JSON, ROR2 header) and readers constructed WithExcludedFields (JSON, ROR2) applied to the full " +
+		"document (must be rejected iff it carries a value at an excluded path) to the writer's own pruned output (must not be rejected, no excluded field reported missing) and, for specs with several directives, to the document pruned by all " +
+		"directives but one (must be rejected iff that one still matches). " +
 		"non-trivial = the spec matches at least one path of the value; distinct by (type, spec, value)")
 	sh := hx.NewShards(cfg.Out, header(), "CodecCorr", 60)
 	r := hx.NewRand(cfg.Seed)
-	n := 60
+	n := 50
 	if cfg.Thorough() {
 		n = 1500
 	}
@@ -167,7 +332,18 @@ func runC07(cfg *hx.Config) {
 			base := schema.refEncode(t, v)
 			paths := schema.randomPaths(r, t, base)
 			var ds []string
-			for k := 0; k < 1+r.Intn(3) && len(paths) > 0; k++ {
+			shape := "random"
+			if i%2 == 1 {
+				// every second spec: a wildcard directive and a named directive side by side (both orders), plus at most one more
+				ds = siblingDirectives(r, keyPaths(base))
+				if ds != nil {
+					shape = "wildcard+named-siblings"
+					if r.Chance(30) && len(paths) > 0 {
+						ds = append(ds, paths[r.Intn(len(paths))])
+					}
+				}
+			}
+			for k := 0; ds == nil && k < 1+r.Intn(3) && len(paths) > 0; k++ {
 				d := paths[r.Intn(len(paths))]
 				if r.Chance(15) {
 					d = "/" + d
@@ -186,10 +362,16 @@ func runC07(cfg *hx.Config) {
 			ptr := reflect.New(registry[tname])
 			schema.toGo(t, v, ptr.Elem())
 			matched := false
+			modelSeesOmissions := !specHitsDefaultLiteral(tname, trimAll(ds))
+			if !modelSeesOmissions {
+				rep.Count("model-corner=spec-matches-inside-a-default-literal")
+			}
+			var pruned [3]struct{ out, cls string }
 			// writers
 			for _, f := range []int{0, 1, 2} {
 				out, oc := encode(ptr, f, spec)
 				c.enc(f, v, oc, out)
+				pruned[f].out, pruned[f].cls = out, oc.Class
 				rep.Evaluations++
 				if f == 0 && oc.Class == "ok" && base.jsonOK() {
 					var got interface{}
@@ -219,7 +401,70 @@ func runC07(cfg *hx.Config) {
 					rep.Fail("exclude:reader-rejects:"+formats[f], "a document without any value at an excluded path is rejected", "v2/restlicodec/missing_fields.go:enterMapScope", cd, oc.Text)
 				}
 			}
+			// readers: the writer's own output (everything at an excluded path omitted - required fields included) read with the
+			// same spec: nothing excluded is carried, and an excluded required field that is absent is not missing
+			for _, f := range []int{0, 2} {
+				if pruned[f].cls != "ok" {
+					continue
+				}
+				oc, got := decodeVal(tname, f, pruned[f].out, spec, 0)
+				if modelSeesOmissions && f == []int{0, 2}[i%2] {
+					// one of the two formats also becomes an operation of the model's case (the oracle judges both)
+					c.dec(f, pruned[f].out, oc, got)
+				}
+				rep.Evaluations++
+				cd := map[string]interface{}{"type": tname, "spec": ds, "document": pruned[f].out, "outcome": oc, "value": v.fixJSON()}
+				if oc.Class == "excluded" {
+					rep.Fail("exclude:reader-rejects:"+formats[f], "a document without any value at an excluded path is rejected", "v2/restlicodec/missing_fields.go:enterMapScope", cd, oc.Text)
+				} else if oc.Class == "missing" {
+					// the value is complete: whatever the document lacks was omitted because the spec excludes it
+					rep.Fail("exclude:reader-reports-excluded-missing:"+formats[f], "a required field at an excluded path, absent from the document, is reported missing",
+						"v2/restlicodec/missing_fields.go:recordMissingRequiredFields", cd, oc.Fields)
+				}
+			}
+			// readers: for every directive d of a spec with several, the document pruned by all directives BUT d (reference
+			// pruning and rendering), read with the whole spec: it must be rejected iff it still carries a value that d excludes -
+			// each directive must keep its force next to the others, whatever their order and shape
+			if tds := trimAll(ds); len(tds) >= 2 {
+				for j := range tds {
+					others := append(append([]string{}, tds[:j]...), tds[j+1:]...)
+					part := pruneDoc(base, others, nil)
+					want := carriesExcluded(part, tds, 0, nil)
+					fm := []int{0, 2}[(i+j)%2] // the format that also becomes an operation of the model's case
+					for _, f := range []int{0, 2} {
+						text := part.render(f, r, false)
+						oc, got := decodeVal(tname, f, text, spec, 0)
+						if f == fm && modelSeesOmissions {
+							c.dec(f, text, oc, got)
+						}
+						rep.Evaluations++
+						cd := map[string]interface{}{"type": tname, "spec": ds, "document": text, "outcome": oc, "kept_directive": tds[j]}
+						if oc.Class == "err" {
+							// pruning can leave an illegal document behind (a union without its member): when the document is rejected
+							// without any spec too, that rejection says nothing about the spec (the model still sees the operation)
+							if plain, _ := decodeVal(tname, f, text, nil, 0); plain.Class == "err" {
+								rep.Count("partly-pruned=illegal-by-itself")
+								continue
+							}
+						}
+						if want && oc.Class != "excluded" {
+							rep.Fail("exclude:reader-accepts:"+formats[f], "a document carrying a value at an excluded path is accepted", "v2/restlicodec/missing_fields.go:enterMapScope", cd, oc.Text)
+						} else if !want && oc.Class == "excluded" {
+							rep.Fail("exclude:reader-rejects:"+formats[f], "a document without any value at an excluded path is rejected", "v2/restlicodec/missing_fields.go:enterMapScope", cd, oc.Text)
+						} else if !want && oc.Class == "missing" {
+							rep.Fail("exclude:reader-reports-excluded-missing:"+formats[f], "a required field at an excluded path, absent from the document, is reported missing",
+								"v2/restlicodec/missing_fields.go:recordMissingRequiredFields", cd, oc.Fields)
+						}
+						if want {
+							rep.Count("partly-pruned=carries-excluded")
+						} else {
+							rep.Count("partly-pruned=clean")
+						}
+					}
+				}
+			}
 			rep.Distinct(tname+strings.Join(ds, ",")+valKey(v), matched)
+			rep.Count("spec=" + shape)
 			rep.Count(fmt.Sprintf("directives=%d", len(ds)))
 			rep.Count(fmt.Sprintf("matched=%v", matched))
 			if matched {
